@@ -217,10 +217,9 @@ Section ScopeObs.
     match ops with
     | [] => []
     | ZRule r :: rest =>
-        match s_assign (to_srule r) tn with
-        | Some tn' => obs_step t0 nid0 (fst tn') :: srun t0 nid0 tn' rest
-        | None => [VE 2]
-        end
+        (* a refused rule (ValueError caught by the caller) leaves the table as it was *)
+        let tn' := match s_assign (to_srule r) tn with Some x => x | None => tn end in
+        obs_step t0 nid0 (fst tn') :: srun t0 nid0 tn' rest
     | ZUpdate l :: rest =>
         let t' := fold_left (fun t cv => set_value Z t (to_cell_n (fst cv)) (snd cv)) l (fst tn) in
         obs_step t0 nid0 t' :: srun t0 nid0 (t', snd tn) rest
